@@ -190,10 +190,11 @@ Proof. exact end_pos_spec. Qed.
 (** ** Texts with a lexical error: agreement up to the failure, and no early error
 
     [agreed cps stoks failing] (Lex/LexPrefixSpec.v): the grammar's tokens [stoks] cut before the
-    first token of a known class and, when the grammar ends in an error ([failing]), without the
-    last token before the failure point (a comment that runs into a character outside
-    SourceCharacter is reported from inside that comment); [agreed_count]: the number of code points
-    these tokens cover. *)
+    first token of a known class and, when the grammar ends in an error ([failing]) right after a
+    COMMENT, without that comment (a comment that runs into a character outside SourceCharacter
+    is reported from inside the comment, and the scanner's comment token runs on to the end of the
+    line); [agreed_count]: the number of code points these tokens cover.  So with [EndError _ idx _ _]
+    and no known class, [agreed_count] is [idx] itself unless a comment ends at [idx]. *)
 
 (** whatever the grammar says about a valid UTF-8 text (tokenises it, or stops at a place without
     token): the scanner's tokens BEGIN with the agreed grammar tokens — kind, byte extent, line,
